@@ -18,10 +18,12 @@ theorem bump_covers (f : FStore) (ts : Nat) (h : ts ≠ maxU64) : ts ≤ (f.bump
     for-update ts and every read timestamp it has served (max_ts): no commit lands under a served read (C01, with
     `Mvcc.read_stable`) -/
 theorem fprewrite_ts_above_reads (f f' : FStore) (r : PrewriteReq) (x : FPrewriteExtra) (resp : FPrewriteResp)
-    (h : fprewrite f r x = (f', resp)) :
+    (hfresh : ownCommitTS f r = none) (h : fprewrite f r x = (f', resp)) :
     (resp.minCommitTS ≠ 0 → f.maxTS < resp.minCommitTS ∧ r.startTS < resp.minCommitTS ∧ r.forUpdateTS < resp.minCommitTS ∧ r.minCommitTS ≤ resp.minCommitTS) ∧
     (resp.onePCCommitTS ≠ 0 → f.maxTS < resp.onePCCommitTS ∧ r.startTS < resp.onePCCommitTS ∧ r.forUpdateTS < resp.onePCCommitTS) := by
   unfold fprewrite at h
+  rw [hfresh] at h
+  unfold fprewriteFresh at h
   simp only [] at h
   repeat' split at h
   all_goals
@@ -30,6 +32,13 @@ theorem fprewrite_ts_above_reads (f f' : FStore) (r : PrewriteReq) (x : FPrewrit
     | (injection h with _ h; subst h
        simp only [ne_eq, not_true_eq_false, false_implies, true_and, and_true]
        intro _; omega)
+
+/-- the idempotent path: a prewrite that finds the transaction already committed on a requested key changes nothing
+    and reports that commit ts -/
+theorem fprewrite_retry_idempotent (f : FStore) (r : PrewriteReq) (x : FPrewriteExtra) (c : Nat)
+    (h : ownCommitTS f r = some c) :
+    (fprewrite f r x).1 = f ∧ (fprewrite f r x).2.minCommitTS = c ∧ (fprewrite f r x).2.errs.all Option.isNone = true := by
+  unfold fprewrite; rw [h]; simp
 
 /-- the one-phase commit writes records, never locks -/
 theorem onePCActs_no_lock (acts : List Act) (T C : Nat) :
